@@ -618,7 +618,7 @@ pub fn property(tier: Tier) -> Property {
     .mins(1000, 10, 100);
     let mut wcases = vec![];
     for (i, call) in call_cases(tier).into_iter().enumerate() {
-        if call.free_cuts {
+        if call.free_cuts || call.cfg != 0 {
             continue;
         }
         let combos: Vec<(Option<Enc>, Option<Enc>)> = if tier == Tier::Thorough {
@@ -645,7 +645,7 @@ pub fn property(tier: Tier) -> Property {
                     disable_compression: false,
                     exact_hint: false,
                 };
-                let call = CallCase { shape, req_msgs: vec![vec![1]], req_md: vec![], script, free_cuts: false, enc: None, fixed_chunks: false, repeat: false };
+                let call = CallCase { shape, req_msgs: vec![vec![1]], req_md: vec![], script, free_cuts: false, enc: None, fixed_chunks: false, repeat: false, cfg: 0 };
                 wcases.push(WireCase { call, c2s: None, s2c: Some(s2c), via_clone: false });
             }
         }
@@ -661,7 +661,7 @@ pub fn property(tier: Tier) -> Property {
     .mins(500, 10, 100);
     let mut ncases = vec![];
     for (i, call) in call_cases(tier).into_iter().enumerate() {
-        if call.free_cuts {
+        if call.free_cuts || call.cfg != 0 {
             continue;
         }
         if tier == Tier::Quick && i % 3 != 0 {
@@ -674,13 +674,13 @@ pub fn property(tier: Tier) -> Property {
         }
     }
     // (b') the bare client names a message subtype in its content-type
-    for call in call_cases(tier).into_iter().filter(|c| !c.free_cuts && !c.repeat && c.enc.is_none()).step_by(23) {
+    for call in call_cases(tier).into_iter().filter(|c| !c.free_cuts && !c.repeat && c.cfg == 0 && c.enc.is_none()).step_by(23) {
         for req_ct in ["application/grpc+proto", "application/grpc+x-raw"] {
             ncases.push(NetCase { call: call.clone(), judge_request: false, c2s: None, chop: 0, middleware: 0, req_ct });
         }
     }
     // (c) responses produced by the middleware stack, for every call shape
-    for call in call_cases(tier).into_iter().filter(|c| !c.free_cuts && !c.repeat && c.script.end.is_none() && c.enc.is_none()).step_by(17) {
+    for call in call_cases(tier).into_iter().filter(|c| !c.free_cuts && !c.repeat && c.cfg == 0 && c.script.end.is_none() && c.enc.is_none()).step_by(17) {
         for middleware in [1u8, 2] {
             ncases.push(NetCase { call: call.clone(), judge_request: false, c2s: None, chop: 0, middleware, req_ct: "application/grpc" });
         }
